@@ -68,6 +68,7 @@ pub fn check_grammar(t: &Trace) -> (Vec<Vec<Rec>>, Vec<Finding>) {
     let mut cur: Vec<Rec> = Vec::new();
     let mut terminated = false;
     let mut last_wm: Option<i64> = None;
+    let mut wm_since_far = 0usize;
     let mut f = |class: Class, msg: String| {
         findings.push(Finding { class, probe: t.probe, label: t.label.clone(), msg: format!("{msg} at replica {:?}", t.ctx.coord) });
     };
@@ -94,15 +95,20 @@ pub fn check_grammar(t: &Trace) -> (Vec<Vec<Rec>>, Vec<Finding>) {
                     }
                 }
                 last_wm = Some(e.ts);
+                wm_since_far += 1;
             }
             K_FAR => {
                 iters.push(std::mem::take(&mut cur));
                 last_wm = None;
+                wm_since_far = 0;
             }
             K_TERMINATE => {
                 terminated = true;
                 if !cur.is_empty() {
                     f(Class::Grammar, format!("{} data elements between the last FlushAndRestart and Terminate (e.g. {:?})", cur.len(), cur[0]));
+                }
+                if cur.is_empty() && wm_since_far > 0 {
+                    f(Class::Grammar, format!("{wm_since_far} watermarks between the last FlushAndRestart and Terminate"));
                 }
                 if iters.is_empty() {
                     f(Class::Grammar, "Terminate without any FlushAndRestart".to_string());
